@@ -10,23 +10,23 @@ def hook_commits():
 CLAIMED = {
  "C09": dict(
    level="exploration",
-   text="(A) seeded sweep of structurally valid values over 14 format families (all slip / transaction types, 0..255 slips, empty to multi-KiB payloads, 0-5 hops, extreme integers, every message tag, handshake, ghost chain, key lists, services, wallet file, version, Full/Header blocks): predicted size, decode, field equality, byte-identical re-encoding, unchanged hash and signature verdict; every message form is also delivered to a live node. (B) seam monitor on a real producer + observer network: every delivered message re-encodes to itself; every block file the observer writes decodes, generates, re-encodes identically, carries the hash of its file name and equals the producer's bytes; tip and stored hashes survive a crash-free restart. Later additions: all signed header fields of the random blocks are random; the lite form of each random block crosses the wire and must keep the block's hash.",
+   text="(A) seeded sweep of structurally valid values over 14 format families (all slip / transaction types, 0..255 slips, empty to multi-KiB payloads, 0-5 hops, extreme integers, every message tag, handshake, ghost chain, key lists, services, wallet file, version, Full/Header blocks): predicted size, decode, field equality, byte-identical re-encoding, unchanged hash and signature verdict; every message form is also delivered to a live node. (B) seam monitor on a real producer + observer network: every delivered message re-encodes to itself; every block file the observer writes decodes, generates, re-encodes identically, carries the hash of its file name and equals the producer's bytes; tip and stored hashes survive a crash-free restart. Later additions: all signed header fields of the random blocks are random; the lite form of each random block crosses the wire and must keep the block's hash. Rounds 5-6: every numeric header field of the random blocks has its own value.",
    design="§6 C09, §7",
    note="Reduced scope (DESIGN §7): the quantifier over all structurally valid values is sampled by a seeded generator; the simulation-decided half is identity preservation across the real send/receive, disk and restart seams.",
    technique="deterministic simulation: round-trip / identity monitor at the simulated wire and disk seams + seeded value sweep"),
 
  "C18": dict(
    level="exploration",
-   text="One block with n ordered zero-fee payments of which a chosen subset pays the light client's key: every (n, pattern) for n = 0..6/8 enumerated first, then random n <= 24/40 with 0-2 extra listed keys. The lite block is produced by the same core calls as the fetch route and checked before and after the wire: id, hash, signature and every header field equal the full block's; every transaction touching a listed key is carried unmodified; hash unchanged by the wire; merkle root recomputable from the lite block's own transactions. In a fraction of the runs a real SPV node performs handshake, ghost-chain request and lite-block fetch against a real full node and must end up storing the block under the advertised hash. Later additions: projection of a copy of the block with every signed header field non-zero; after-wire comparison of the kept transactions' outputs including ledger coordinates.",
+   text="One block with n ordered zero-fee payments of which a chosen subset pays the light client's key: every (n, pattern) for n = 0..6/8 enumerated first, then random n <= 24/40 with 0-2 extra listed keys. The lite block is produced by the same core calls as the fetch route and checked before and after the wire: id, hash, signature and every header field equal the full block's; every transaction touching a listed key is carried unmodified; hash unchanged by the wire; merkle root recomputable from the lite block's own transactions. In a fraction of the runs a real SPV node performs handshake, ghost-chain request and lite-block fetch against a real full node and must end up storing the block under the advertised hash. Later additions: projection of a copy of the block with every signed header field non-zero; after-wire comparison of the kept transactions' outputs including ledger coordinates. Rounds 5-6: projection of the block after its transactions were pruned from memory keeps the signed header and the hash.",
    design="§6 C18",
    note="Reduced scope (DESIGN §7): the quantifier over blocks/key lists is enumerated only for the small space and sampled beyond. Fetch route is a stub re-using the core calls of saito-rust's warp route.",
    technique="deterministic simulation: full node + SPV node over a simulated lite-block fetch route, projection monitor; enumerated touch patterns"),
 
  "C19": dict(
    level="exploration",
-   text="Producer chain (genesis period 4..8 or 100) feeding a wallet node (real Blockchain + Wallet): 5..40/150 seeded events (payments to the wallet key, transactions built through Transaction::create / create_with_multiple_payments with random, total, excessive and zero amounts, confirmation, delay, dropping, a competing fork that un-confirms, window expiry with rebroadcast). After every event: balance == sum of unspent slips, every unspent key in the slip table; until the first reorganisation the unspent set equals the reference ledger's in-window outputs of the key minus inputs committed to pending wallet transactions; every wallet-built transaction has distinct inputs, outputs <= inputs (u128) and validates against the ledger it was built on. Later additions: an ordinary transaction with txs_replacements != 1 accompanies a third of the payments to the wallet.",
+   text="Producer chain (genesis period 4..8 or 100) feeding a wallet node (real Blockchain + Wallet): 5..40/150 seeded events (payments to the wallet key, transactions built through Transaction::create / create_with_multiple_payments with random, total, excessive and zero amounts, confirmation, delay, dropping, a competing fork that un-confirms, window expiry with rebroadcast). After every event: balance == sum of unspent slips, every unspent key in the slip table; until the first reorganisation the unspent set equals the reference ledger's in-window outputs of the key minus inputs committed to pending wallet transactions; every wallet-built transaction has distinct inputs, outputs <= inputs (u128) and validates against the ledger it was built on. Later additions: an ordinary transaction with txs_replacements != 1 accompanies a third of the payments to the wallet. Rounds 5-6: reorganisations of depth 1..prune depth+2 with prune depth 1/2/3/8; staking family at the wallet's interface (stakes assembled from stake outputs topped up with ordinary ones).",
    design="§6 C19",
-   note="Trusted: reference ledger of the producer chain. Staking slips and NFTs are not generated.",
+   note="Trusted: reference ledger of the producer chain. NFTs are not generated; staking only in the wallet-interface family.",
    technique="deterministic simulation: seeded payment/spend/confirm/drop/reorg/expiry histories through a real node + wallet-vs-ledger model"),
 
  "C20": dict(
@@ -38,28 +38,28 @@ CLAIMED = {
 
  "C14": dict(
    level="exploration",
-   text="One real node (consensus processor with timer-driven bundling and the real mempool): 4..40/120 seeded operations mixing transaction arrivals (valid, two-input, conflicting, duplicate), staging and bundling ticks, peer blocks that confirm / partially spend / conflict with pooled transactions, invalid peer blocks and a peer fork that reorganises away the last block. After every operation a reference view of the pool is checked: no shared inputs, every pooled transaction valid against the ledger, reservations subset of pooled inputs, routing-work cache exact, bundling all-or-nothing, and an active probe that an unreserved unspent output can be spent by a fresh transaction. Later additions: payments routed to the node (routing work cache), two-input transaction conflicting on its second input, sibling of the tip spending a reserved input, reservations must equal the pooled inputs (both directions).",
+   text="One real node (consensus processor with timer-driven bundling and the real mempool): 4..40/120 seeded operations mixing transaction arrivals (valid, two-input, conflicting, duplicate), staging and bundling ticks, peer blocks that confirm / partially spend / conflict with pooled transactions, invalid peer blocks and a peer fork that reorganises away the last block. After every operation a reference view of the pool is checked: no shared inputs, every pooled transaction valid against the ledger, reservations subset of pooled inputs, routing-work cache exact, bundling all-or-nothing, and an active probe that an unreserved unspent output can be spent by a fresh transaction. Later additions: payments routed to the node (routing work cache), two-input transaction conflicting on its second input, sibling of the tip spending a reserved input, reservations must equal the pooled inputs (both directions). Rounds 5-6: a refused block under the node's own key whose transactions are handed back to the pool.",
    design="§6 C14",
    note="Trusted: reference ledger, universe builder for peer blocks; the probe transaction is removed again after the probe.",
    technique="deterministic simulation: seeded interleavings of pool / bundling / peer-block / reorg operations + reference pool model with active spendability probe"),
 
  "C07": dict(
    level="exploration",
-   text="Real producer node (genesis from an issuance file, timer-driven bundling through the real mempool incl. staking transaction, golden tickets from the real MiningThread with seeded nonces) plus 1-2 independent observer nodes that learn of blocks only through announce -> fetch -> verify -> add, and a scripted wallet submitting payments (random fees, routed, conflicting pairs, dust) through the producer's routing/verification path; genesis period 3..100, heartbeat 0.2..5 s, three issuance scales; producer clock skew, observer crash+restart. Oracle: no panics, every bundled block becomes the producer's tip, every connected observer is on the producer's tip at quiescence. Later additions: rival producer (valid competing block built on the producer's tip by an independent replica, delivered as a fetched peer block); social staking enabled in a quarter of the network-family runs; block fetches complete in request order.",
+   text="Real producer node (genesis from an issuance file, timer-driven bundling through the real mempool incl. staking transaction, golden tickets from the real MiningThread with seeded nonces) plus 1-2 independent observer nodes that learn of blocks only through announce -> fetch -> verify -> add, and a scripted wallet submitting payments (random fees, routed, conflicting pairs, dust) through the producer's routing/verification path; genesis period 3..100, heartbeat 0.2..5 s, three issuance scales; producer clock skew, observer crash+restart. Oracle: no panics, every bundled block becomes the producer's tip, every connected observer is on the producer's tip at quiescence. Later additions: rival producer (valid competing block built on the producer's tip by an independent replica, delivered as a fetched peer block); social staking enabled in a quarter of the network-family runs; block fetches complete in request order. Rounds 5-6: chain family with producer prune depth 1/2/3/8 (payout and rebroadcast inputs read back from disk).",
    design="§6 C07",
    note="Trusted: SimNet/fetch-server stubs, scripted wallet. Event-granularity scheduling; staking off. The producer-chain builder used by C02/C12/C13 additionally reports 'producer refused own block' as a probe.",
    technique="deterministic simulation: real producer (timer, mempool, miner) + independent observer nodes on a simulated network, adoption/convergence oracle under clock skew and restarts"),
 
  "C12": dict(
    level="fault_enumeration",
-   text="Histories (producer chain over genesis period 3..6 with rebroadcast, pruning and purge, optional side fork) delivered to a real full node whose simulated disk journals every write/remove; every journal prefix x tear class {absent, empty, header cut, half, all-but-last-byte, complete} of the next operation is a crash image on which a brand-new node runs the real start-up (Wallet::load, ConsensusThread::on_init, delete_old_blocks on/off). Oracle: no panic; restarted tip was given to the node before the crash point; in-window spendable value equals the reference ledger at that tip; conservation equation; clean shutdown restarts at the same tip; the node adopts the next three blocks. Later additions: second crash during the start-up's own storage operations; clean restart after recovery + three blocks; histories in which the main chain wins by a reorganisation through a block received while it was the shorter branch.",
+   text="Histories (producer chain over genesis period 3..6 with rebroadcast, pruning and purge, optional side fork) delivered to a real full node whose simulated disk journals every write/remove; every journal prefix x tear class {absent, empty, header cut, half, all-but-last-byte, complete} of the next operation is a crash image on which a brand-new node runs the real start-up (Wallet::load, ConsensusThread::on_init, delete_old_blocks on/off). Oracle: no panic; restarted tip was given to the node before the crash point; in-window spendable value equals the reference ledger at that tip; conservation equation; clean shutdown restarts at the same tip; the node adopts the next three blocks. Later additions: second crash during the start-up's own storage operations; clean restart after recovery + three blocks; histories in which the main chain wins by a reorganisation through a block received while it was the shorter branch. Rounds 5-6: for the clean image of fork histories: restart, the stored side branch overtakes the main chain, restart again.",
    design="§6 C12",
    note="Trusted: journal/tear model (process death; write_value = truncate+write without fsync/rename as in RustIOHandler), reference ledgers of the producer. Quick tier enumerates the images of 100 histories (12 chunks of 24 images each); thorough 5000 histories.",
    technique="deterministic simulation: storage-journal crash-point x torn-write enumeration with real restart path and ledger/supply/liveness oracle"),
 
  "C11": dict(
    level="exploration",
-   text="Node under test (all four real processors, timer-driven bundling and mining) with an honest scripted peer and an attacker holding an authenticated or unauthenticated connection plus a second unauthenticated one: 3..25/80 moves, two thirds hostile from a 22-entry catalogue (every odd message tag, storms, second handshake with another key, announcements answered with garbage or with well-formed hostile blocks, hostile transactions, reconnect storms) interleaved with honest blocks/transactions, timer rounds and clock jumps; the system runs to quiescence after each move. Oracle: no handler panics, quiescence within the step cap, and after a hostile move the digest of tip / stored blocks / spendable set / pool / honest peer entry / its key mapping is unchanged. Later additions: hostile kinds typed-tx-odd-shape, unparsable-signature, hostile-block-huge-replacements; per-move allocation oracle (128 MiB).",
+   text="Node under test (all four real processors, timer-driven bundling and mining) with an honest scripted peer and an attacker holding an authenticated or unauthenticated connection plus a second unauthenticated one: 3..25/80 moves, two thirds hostile from a 22-entry catalogue (every odd message tag, storms, second handshake with another key, announcements answered with garbage or with well-formed hostile blocks, hostile transactions, reconnect storms) interleaved with honest blocks/transactions, timer rounds and clock jumps; the system runs to quiescence after each move. Oracle: no handler panics, quiescence within the step cap, and after a hostile move the digest of tip / stored blocks / spendable set / pool / honest peer entry / its key mapping is unchanged. Later additions: hostile kinds typed-tx-odd-shape, unparsable-signature, hostile-block-huge-replacements; per-move allocation oracle (128 MiB). Rounds 5-6: hostile blocks same-input-twice and id-zero-parent (the latter is the orphan class: known finding); one run in eight starts with an empty chain; one run in three ends with a restart from the node's own disk.",
    design="§6 C11",
    note="Trusted: scripted peers, hostile-block construction (universe builder + reseal). Orphan deliveries are not generated here. Event-granularity scheduling.",
    technique="deterministic simulation: seeded hostile-peer message/fetch/connection sequences interleaved with honest traffic, panic/stall/state-digest oracle"),
@@ -73,14 +73,14 @@ CLAIMED = {
 
  "C16": dict(
    level="exploration",
-   text="One real node (routing/verification/consensus) with 2-3 scripted peers authenticated through the real handshake; 5..60/200 seeded operations (announce by any peer in any height order incl. the same block by several peers and unknown hashes, timer rounds, fetch completions with the right / undecodable / wrong block, fetch failures, disconnects), everything driven through the routing layer. Oracle at the I/O boundary after every operation: in-flight per peer <= batch size, no (peer, hash) in flight twice, no never-requested lower height skipped, every announced real block requested or present after faults stop, at most 501 requests per peer for a block that always fails. Later additions: fetch request from the consensus processor plus the peer's announcement within one round; in-flight = pending minus the new requests.",
+   text="One real node (routing/verification/consensus) with 2-3 scripted peers authenticated through the real handshake; 5..60/200 seeded operations (announce by any peer in any height order incl. the same block by several peers and unknown hashes, timer rounds, fetch completions with the right / undecodable / wrong block, fetch failures, disconnects), everything driven through the routing layer. Oracle at the I/O boundary after every operation: in-flight per peer <= batch size, no (peer, hash) in flight twice, no never-requested lower height skipped, every announced real block requested or present after faults stop, at most 501 requests per peer for a block that always fails. Later additions: fetch request from the consensus processor plus the peer's announcement within one round; in-flight = pending minus the new requests. Rounds 5-6: the consensus processor's request for a missing parent without any announcement (only the timer round can serve it).",
    design="§6 C16",
    note="Trusted: scripted peers and the definition of in-flight (requested via InterfaceIO, not yet completed by the simulated controller). Fetches of children whose parent is unknown are failed by the scripted server so that the orphan known finding does not interfere.",
    technique="deterministic simulation: seeded announce/complete/fail/timer sequences through the routing layer + in-flight reference model at the I/O boundary"),
 
  "C17": dict(
    level="exploration",
-   text="Honest nodes A (dials out) and B (accepts) with the real routing/Network/Peer handshake code; the attacker is the network between them and may open further connections: 2..8/12 moves from 17 kinds (forward, drop, replay, reflect, redirect, own-key answer, unsolicited / self-signed / other-connection / used-challenge / wrong-version answers, own challenge, open, close). After every delivery to an honest node a provenance monitor checks that Connected-under-K only follows a response on that very connection signed by K over an outstanding challenge this node sent there, at most once per challenge, never the node's own key, and that authenticated peers and the key->connection mapping are undisturbed by messages that authenticate nobody. Later additions: A re-dials its static peer on the same peer index (challenges die with the connection); all-zero attacker challenges.",
+   text="Honest nodes A (dials out) and B (accepts) with the real routing/Network/Peer handshake code; the attacker is the network between them and may open further connections: 2..8/12 moves from 17 kinds (forward, drop, replay, reflect, redirect, own-key answer, unsolicited / self-signed / other-connection / used-challenge / wrong-version answers, own challenge, open, close). After every delivery to an honest node a provenance monitor checks that Connected-under-K only follows a response on that very connection signed by K over an outstanding challenge this node sent there, at most once per challenge, never the node's own key, and that authenticated peers and the key->connection mapping are undisturbed by messages that authenticate nobody. Later additions: A re-dials its static peer on the same peer index (challenges die with the connection); all-zero attacker challenges. Rounds 5-6: responses stating an incompatible core version never connect (a third of the runs with lite nodes); address_to_peers never names a connected peer that holds another key.",
    design="§6 C17",
    note="Trusted: monitor's bookkeeping of challenges seen leaving each honest node; sign/verify primitives. Attacker never holds an honest private key. Event-granularity scheduling.",
    technique="deterministic simulation: Dolev-Yao-minus-forgery attacker on a simulated network + handshake provenance monitor"),
@@ -94,14 +94,14 @@ CLAIMED = {
 
  "C08": dict(
    level="exploration",
-   text="Two seeded families through the real add_block. Work gate: one transaction set (fee classes x 8 routing-path shapes incl. forged, non-contiguous, self-hop, not ending at the creator) bundled at two timestamp offsets around the thresholds, each offered to a fresh replica; accepted => paths valid and independently computed u128 work >= parent burn fee / offset; acceptance monotone in the offset; no work needed from two heartbeats on. Payouts: routed fee-paying histories with three ticket patterns; every Fee-transaction output goes to the ticket solver, a hop recipient or a path-less sender of the blocks being paid, and the sum does not exceed the fees those blocks collected. Later additions: paths through the creator that end elsewhere; replica that joined at the parent; rounding-boundary runs (fee = integer part of burn fee / elapsed where the fraction is 0.6..0.95).",
+   text="Two seeded families through the real add_block. Work gate: one transaction set (fee classes x 8 routing-path shapes incl. forged, non-contiguous, self-hop, not ending at the creator) bundled at two timestamp offsets around the thresholds, each offered to a fresh replica; accepted => paths valid and independently computed u128 work >= parent burn fee / offset; acceptance monotone in the offset; no work needed from two heartbeats on. Payouts: routed fee-paying histories with three ticket patterns; every Fee-transaction output goes to the ticket solver, a hop recipient or a path-less sender of the blocks being paid, and the sum does not exceed the fees those blocks collected. Later additions: paths through the creator that end elsewhere; replica that joined at the parent; rounding-boundary runs (fee = integer part of burn fee / elapsed where the fraction is 0.6..0.95). Rounds 5-6: ticket-in-every-block pattern (difficulty rises); rival blocks whose golden ticket does not solve the parent's lottery (4 kinds) must be refused; a ticket solved by one key and relayed inside another key's golden-ticket transaction pays the solver.",
    design="§6 C08",
    note="Trusted: oracle's work computation and eligibility rule (written from the property statement), signature verification primitive. The converse (sufficient work => accepted) is only counted, not demanded.",
    technique="deterministic simulation: seeded routing-path/timestamp-offset injection with independent work and payout-eligibility oracles"),
 
  "C06": dict(
    level="exploration",
-   text="Seeded histories; the block at a seeded position is edited (10 edits: reorder/replace/add/remove/duplicate transactions or change a payload under the unchanged signed header; re-sign with another key; change creator/timestamp/treasury without re-signing), the edited block goes to node A and the original to node B through the decode+generate path, then the rest of the history to both. Oracles: same hash + different ordered transaction list is never accepted; header edits change the hash or are rejected (and never accepted under a new hash without a valid creator signature); same tip hash on two nodes implies identical spendable sets. Later additions: receiving nodes synced / joined mid-chain / fresh (edited block #1); slip-less SPV stub insertion; all transactions removed; restart stage (edited block stored as a sibling, written to disk unvalidated, node restarted from its disk).",
+   text="Seeded histories; the block at a seeded position is edited (10 edits: reorder/replace/add/remove/duplicate transactions or change a payload under the unchanged signed header; re-sign with another key; change creator/timestamp/treasury without re-signing), the edited block goes to node A and the original to node B through the decode+generate path, then the rest of the history to both. Oracles: same hash + different ordered transaction list is never accepted; header edits change the hash or are rejected (and never accepted under a new hash without a valid creator signature); same tip hash on two nodes implies identical spendable sets. Later additions: receiving nodes synced / joined mid-chain / fresh (edited block #1); slip-less SPV stub insertion; all transactions removed; restart stage (edited block stored as a sibling, written to disk unvalidated, node restarted from its disk). Rounds 5-6: leaf-limit family (producer block whose merkle tree has exactly MAX_MERKLE_TREE_LEAVES leaves or one fewer, then a list edit that keeps the leaf total).",
    design="§6 C06",
    note="Trusted: edit catalogue and the comparison of ordered transaction lists; universe builder for the honest history.",
    technique="deterministic simulation: two-node history replay with post-signing block edits, same-hash/same-ledger oracle"),
@@ -115,27 +115,27 @@ CLAIMED = {
 
  "C02": dict(
    level="exploration",
-   text="Seeded long histories on a real producer node (genesis period 3..10, up to 30/120 blocks, fee classes, 0-2 hop paths, four golden-ticket patterns, three issuance scales, rebroadcasts after the window wraps), one third with a competing fork built by a second producer and delivered to an observer (reorganisation across payouts/rebroadcasts), one quarter with a transaction whose output sum wraps 2^64 through pool or block. After every accepted block, on every node: conservation equation in u128, node's in-window value == reference replay, no accepted user transaction with outputs > inputs. Later additions: NFT (Bound-Normal-Bound) creation in about one block of five; hostile value-bearing golden ticket and NFT overspend through pool and block; optional tickets stop at difficulty 10 (the harness miner pays 2^difficulty).",
+   text="Seeded long histories on a real producer node (genesis period 3..10, up to 30/120 blocks, fee classes, 0-2 hop paths, four golden-ticket patterns, three issuance scales, rebroadcasts after the window wraps), one third with a competing fork built by a second producer and delivered to an observer (reorganisation across payouts/rebroadcasts), one quarter with a transaction whose output sum wraps 2^64 through pool or block. After every accepted block, on every node: conservation equation in u128, node's in-window value == reference replay, no accepted user transaction with outputs > inputs. Later additions: NFT (Bound-Normal-Bound) creation in about one block of five; hostile value-bearing golden ticket and NFT overspend through pool and block; optional tickets stop at difficulty 10 (the harness miner pays 2^difficulty). Rounds 5-6: hostile spend of the smallest output of block tip - genesis period (the one the next block's rebroadcast pass collects).",
    design="§6 C02",
    note="Trusted: reference ledger and u128 arithmetic of the oracle. Staking off; timestamps >= 2 heartbeats apart. Fork depth < genesis period (deeper forks are the orphan case of C03/C05).",
    technique="deterministic simulation: seeded long-history generation incl. reorgs + u128 conservation oracle, adversarial amount injection"),
 
  "C01": dict(
    level="exploration",
-   text="Seeded search over honest histories (fresh / after a reorganisation, 2..10/25 blocks) x a 15-entry catalogue of hostile transaction edits x entry path (pool, block as next tip, block on a side fork that becomes the longer candidate) x transaction position. Oracles: hostile tx absent from the pool, hostile block never on the longest chain, and an independent scan of the node's longest chain against the reference ledger (every value-carrying input spendable at that point and owned by the signer). The honest twin must be accepted or the run does not count. Later additions: ATR-typed transaction with plain outputs, double spend across transactions behind a zero-amount input, nodes with prune depth 1/2 and side forks of 2-4 blocks, outputs that only existed on the abandoned fork offered as inputs.",
+   text="Seeded search over honest histories (fresh / after a reorganisation, 2..10/25 blocks) x a 15-entry catalogue of hostile transaction edits x entry path (pool, block as next tip, block on a side fork that becomes the longer candidate) x transaction position. Oracles: hostile tx absent from the pool, hostile block never on the longest chain, and an independent scan of the node's longest chain against the reference ledger (every value-carrying input spendable at that point and owned by the signer). The honest twin must be accepted or the run does not count. Later additions: ATR-typed transaction with plain outputs, double spend across transactions behind a zero-amount input, nodes with prune depth 1/2 and side forks of 2-4 blocks, outputs that only existed on the abandoned fork offered as inputs. Rounds 5-6: fourth entry path (hostile block on top of an honest stored sibling, i.e. the second block of the candidate chain); the spendable set is compared across every rejected block.",
    design="§6 C01",
    note="Trusted: reference ledger, edit catalogue, universe builder. Genesis period >> depth here (expired inputs: C13); staking off.",
    technique="deterministic simulation: seeded history x adversarial-edit injection through pool and block paths, reference-ledger oracle"),
 
  "C03": dict(
    level="exploration",
-   text="Seeded search over block trees x delivery orders (all parent vectors of <=4 (quick) / <=5 (thorough) non-genesis blocks x all delivery permutations enumerated first, then random trees up to 15/30 blocks with duplicates, invalid tips and rare orphan-first orders) through the real Blockchain::add_block; after every delivery the spendable set, by-height index, on-chain flags and tip are compared with an independent replay of the reported chain. Sampling beyond the enumerated prefix: evidence, not proof. Later additions: prune depth 1/2/3/8 and a deep single-reorganisation style (branch A completely, then the longer branch B), so that unwinding re-reads Pruned blocks.",
+   text="Seeded search over block trees x delivery orders (all parent vectors of <=4 (quick) / <=5 (thorough) non-genesis blocks x all delivery permutations enumerated first, then random trees up to 15/30 blocks with duplicates, invalid tips and rare orphan-first orders) through the real Blockchain::add_block; after every delivery the spendable set, by-height index, on-chain flags and tip are compared with an independent replay of the reported chain. Sampling beyond the enumerated prefix: evidence, not proof. Later additions: prune depth 1/2/3/8 and a deep single-reorganisation style (branch A completely, then the longer branch B), so that unwinding re-reads Pruned blocks. Rounds 5-6: long-chain family: producer chain with genesis period 3..6 grown to 1-3 times the block ring, an invalid block refused before the ring wraps over its slot, a reorganisation after the wrap; index judged for every id from 1 to tip + ring.",
    design="§6 C03",
    note="Trusted: the reference ledger (BTreeMap over independently recomputed utxo keys), the SimIo in-memory disk, the vendored ahash with fixed seeds. Genesis period >> tree height (window edge belongs to C13).",
    technique="deterministic simulation: seeded block-tree/delivery-order search + reference-ledger replay oracle"),
  "C04": dict(
    level="exploration",
-   text="Seeded search over (shared prefix, main chain 0..4/10, candidate chain longer than main, position and kind (11 header/fee-tx edits) of the invalid candidate block, prune depth, disk read fault on the n-th block-file read). Full observable snapshot (tip, spendable set, index, stored blocks+flags, wallet) compared before/after every call that does not add the block; wind/unwind loop under a step budget proportional to the two segments; node must extend its chain afterwards. Later additions: bad blocks that are invalid through a double-spend / phantom input; candidate on the tip whose second block arrives first (multi-block candidate, empty old segment); ring family (genesis period 3..6, block K before K-1, invalid child of K, K on / next to a multiple of the ring size).",
+   text="Seeded search over (shared prefix, main chain 0..4/10, candidate chain longer than main, position and kind (11 header/fee-tx edits) of the invalid candidate block, prune depth, disk read fault on the n-th block-file read). Full observable snapshot (tip, spendable set, index, stored blocks+flags, wallet) compared before/after every call that does not add the block; wind/unwind loop under a step budget proportional to the two segments; node must extend its chain afterwards. Later additions: bad blocks that are invalid through a double-spend / phantom input; candidate on the tip whose second block arrives first (multi-block candidate, empty old segment); ring family (genesis period 3..6, block K before K-1, invalid child of K, K on / next to a multiple of the ring size). Rounds 5-6: every (id, hash) entry of the block ring is part of the before/after snapshot; the ring family's known-finding exemption covers only the slot of the block that was wound and unwound.",
    design="§6 C04",
    note="Trusted: snapshot code, tamper catalogue (blocks re-signed so only validation can notice), SimIo read-fault injection. Transaction-level invalidity is judged by C01. Block cache type (Pruned/Full) not compared.",
    technique="deterministic simulation: seeded fork-shape x invalid-position search with disk read-fault injection, before/after snapshot oracle, step-budget hook"),
